@@ -90,7 +90,8 @@ def run(ctx):
     concrete = [d for d in dis if d.get("kind") == "disagreement" and not d["holds_on_impl"]]
     others = [d for d in dis if d not in concrete]
     recorded = 0
-    for d in concrete[:50]:
+    for d in concrete:
+        if recorded >= 50: break      # cap on RECORDED violations: hits of known findings must not use it up
         m = re.search(r"mon=(\S+)", d["model"])
         what = re.sub(r"@\d+|:[^,]*", "", m.group(1)) if m else d["op"].split(" ")[0]
         if d["op"] == "d8reader":
